@@ -2,4 +2,4 @@
 From Coq Require Import ExtrOcamlBasic.
 From CssV Require Import Base Regex Tokenizer EscapeEnc.
 Extraction "escapeenc_model.ml" esc hexdigits py_hex encode_esc escape_unenc unicodesub tokenize
-  sheet_text get_encoding set_encoding detect_charset.
+  sheet_text get_encoding set_encoding detect_charset run_history.
